@@ -1438,13 +1438,7 @@ func ruleNORM1(c *Ctx) []Ob {
 			return false
 		}
 		for _, m := range c.visitorMethods(n) {
-			found := false
-			allCalls(m, func(call ssa.CallInstruction) {
-				if g := staticCallee(call); g != nil && c.declared(g) == normalize {
-					found = true
-				}
-			})
-			if found {
+			if normalize != nil && c.staticReach(m)[normalize] {
 				return true
 			}
 		}
@@ -2672,13 +2666,7 @@ func ruleNORM2(c *Ctx) []Ob {
 	sort.Slice(allV, func(i, j int) bool { return allV[i].Obj().Name() < allV[j].Obj().Name() })
 	for _, n := range allV {
 		for _, m := range c.visitorMethods(n) {
-			found := false
-			allCalls(m, func(call ssa.CallInstruction) {
-				if g := staticCallee(call); g != nil && normalize != nil && c.declared(g) == normalize {
-					found = true
-				}
-			})
-			if found {
+			if normalize != nil && c.staticReach(m)[normalize] {
 				visitors = append(visitors, n)
 				break
 			}
@@ -2835,11 +2823,14 @@ func isZeroOK(t types.Type) bool { return false }
 // store.Cursor contract (and badger's iterator) gives. bbolt's Cursor.Seek
 // returns the first key >= target, or nil past the last key. Therefore
 // (a) whatever it returns replaces the adapter's current position on every
-//     path (a seek that finds nothing must not leave the previous position
-//     valid), and
+//
+//	path (a seek that finds nothing must not leave the previous position
+//	valid), and
+//
 // (b) for the nil result there is a repositioning call (Last or Prev) that is
-//     not confined to the key != nil case: a reverse seek past the last key
-//     lands on the last key, as on badger.
+//
+//	not confined to the key != nil case: a reverse seek past the last key
+//	lands on the last key, as on badger.
 func ruleADP9(c *Ctx) []Ob {
 	o := newObs(c, "ADP9")
 	const bseek = "(*go.etcd.io/bbolt.Cursor).Seek"
@@ -3662,6 +3653,10 @@ func ruleID4(c *Ctx) []Ob {
 				}
 				if x, tnil, isT := nilTest(og); isT && isErr(x) && tnil {
 					o.add(OK, key, pos, "returns `err == nil` of uuid.FromString")
+					continue
+				}
+				if in, isIn := og.(ssa.Instruction); isIn && guardedBy(fn, in.Block(), okEdges) {
+					o.add(OK, key, pos, "a further restriction, evaluated only after uuid.FromString accepted the id")
 					continue
 				}
 				o.add(VIOLATED, key, pos, "the verdict (%s) is not the outcome of uuid.FromString", describeValue(c, og))
@@ -4665,8 +4660,8 @@ type depPanicTie struct {
 
 // depPanicTies: read in the dependency's source, one line each.
 var depPanicTies = map[string]depPanicTie{
-	"(*github.com/dgraph-io/badger/v4.Txn).Discard": {"panics when an iterator of the transaction is still open: every library function that obtains a store.Cursor defers its Close, and deferred calls run before the caller's deferred Rollback / before its Commit returns to the opener", "@cursor-close"},
-	"(*go.etcd.io/bbolt.Tx).Commit":                 {"asserts that the transaction is not a managed one (the adapter begins its transactions itself with DB.Begin) and panics on a failed consistency check only in StrictMode, which the adapter does not enable", "@no-strict-mode"},
+	"(*github.com/dgraph-io/badger/v4.Txn).Discard":     {"panics when an iterator of the transaction is still open: every library function that obtains a store.Cursor defers its Close, and deferred calls run before the caller's deferred Rollback / before its Commit returns to the opener", "@cursor-close"},
+	"(*go.etcd.io/bbolt.Tx).Commit":                     {"asserts that the transaction is not a managed one (the adapter begins its transactions itself with DB.Begin) and panics on a failed consistency check only in StrictMode, which the adapter does not enable", "@no-strict-mode"},
 	"(*github.com/dgraph-io/badger/v4.Txn).NewIterator": {"panics with ErrDiscardedTxn on a discarded transaction (the adapter never uses a transaction after Commit/Rollback: TX2 commit-is-last) and with ErrDBClosed when the database has been closed: Begin must refuse a closed database", "badger/v4.DB).IsClosed"},
 }
 
@@ -4684,7 +4679,6 @@ func (c *Ctx) staticReachWithCallers(fn *ssa.Function) map[*ssa.Function]bool {
 	}
 	return out
 }
-
 
 // unclosedCursor: a library function that obtains a store.Cursor without deferring its Close.
 func (c *Ctx) unclosedCursor() string {
@@ -4715,4 +4709,1000 @@ func (c *Ctx) unclosedCursor() string {
 		}
 	}
 	return ""
+}
+
+// ---------------------------------------------------------------- NORM3 / NORM4
+
+// NORM3: field references are recognised wherever the evaluator resolves them.
+// If an operator's evaluation applies the operand resolver (the function that
+// replaces Field(x) / "$x" by doc.Get(x)) to the ELEMENTS of a list operand
+// (In, Contains), then the literal-normalising visitor must apply the
+// field-reference predicate to list elements too - otherwise internal.Normalize
+// is handed a *field inside the list and turns it into an empty object, and
+// `In(Field("b"))` silently matches nothing through the DB while Satisfy on the
+// caller's criteria is right.
+func ruleNORM3(c *Ctx) []Ob {
+	o := newObs(c, "NORM3")
+	getM := c.lookupMethod("document", "Document", "Get")
+	isField := c.lookupFunc("query", "IsField")
+	normalize := c.lookupFunc("internal", "Normalize")
+	// the resolver: func(*Document, interface{}) interface{} calling Document.Get
+	var resolver *ssa.Function
+	for _, fn := range c.LibFuncs {
+		if c.pkgRel(fn) != "query" || fn.Parent() != nil || len(fn.Params) != 2 || fn.Signature.Results().Len() != 1 || !c.isDocPtr(fn.Params[0].Type()) {
+			continue
+		}
+		if _, ok := fn.Params[1].Type().Underlying().(*types.Interface); !ok {
+			continue
+		}
+		calls := false
+		allCalls(fn, func(ci ssa.CallInstruction) {
+			if g := staticCallee(ci); g != nil && getM != nil && c.declared(g) == getM {
+				calls = true
+			}
+		})
+		if calls {
+			resolver = fn
+		}
+	}
+	if resolver == nil || isField == nil || normalize == nil {
+		o.add(UNDECIDED, "model", "-", "operand resolver, query.IsField or internal.Normalize not found")
+		return softenUndecided(o.list)
+	}
+	// is v an element of a []interface{} (range / index)?
+	isListElem := func(v ssa.Value) bool {
+		for _, og := range origins(v) {
+			if l, ok := og.(*ssa.UnOp); ok && l.Op == token.MUL {
+				if ia, ok := l.X.(*ssa.IndexAddr); ok {
+					if sl, ok := ia.X.Type().Underlying().(*types.Slice); ok {
+						if _, isI := sl.Elem().Underlying().(*types.Interface); isI {
+							return true
+						}
+					}
+				}
+			}
+		}
+		return false
+	}
+	elemResolved := ""
+	for _, fn := range c.LibFuncs {
+		if c.pkgRel(fn) != "query" {
+			continue
+		}
+		allCalls(fn, func(ci ssa.CallInstruction) {
+			if g := staticCallee(ci); g != nil && c.declared(g) == resolver && len(ci.Common().Args) == 2 && isListElem(ci.Common().Args[1]) {
+				elemResolved = c.fname(fn)
+			}
+		})
+	}
+	if elemResolved == "" {
+		o.add(OK, "list operands", "-", "no operator resolves field references inside list operands: only top-level operands can be references")
+		return o.list
+	}
+	// the normalising visitors
+	var visitors []*types.Named
+	if vi := c.visitorIface(); vi != nil {
+		for _, sp := range c.LibPkgs {
+			for _, mem := range sp.Members {
+				if tn, ok := mem.(*ssa.Type); ok {
+					if n, ok := tn.Type().(*types.Named); ok && types.Implements(types.NewPointer(n), vi) {
+						for _, m := range c.visitorMethods(n) {
+							for f := range c.staticReach(m) {
+								if f == normalize {
+									visitors = append(visitors, n)
+								}
+							}
+						}
+					}
+				}
+			}
+		}
+	}
+	seenV := map[*types.Named]bool{}
+	for _, V := range visitors {
+		if seenV[V] {
+			continue
+		}
+		seenV[V] = true
+		elemChecked := false
+		for _, m := range c.visitorMethods(V) {
+			for f := range c.staticReach(m) {
+				if c.pkgRel(f) != "" && c.pkgRel(f) != "query" {
+					continue
+				}
+				allCalls(f, func(ci ssa.CallInstruction) {
+					if g := staticCallee(ci); g != nil && c.declared(g) == isField && len(ci.Common().Args) == 1 && isListElem(ci.Common().Args[0]) {
+						elemChecked = true
+					}
+				})
+			}
+		}
+		key := V.Obj().Name() + "/field references inside list operands"
+		if elemChecked {
+			o.add(OK, key, "-", "the elements of a list operand are tested with query.IsField before being normalised (%s resolves references element by element)", elemResolved)
+		} else {
+			o.add(VIOLATED, key, "-", "%s resolves field references in the elements of a list operand, but the normalising visitor tests only the whole operand with query.IsField: a Field(name) inside In(...)/Contains(...) is handed to internal.Normalize, which follows the pointer and turns the reference into an empty object - the query then compares with {} instead of the other field", elemResolved)
+		}
+	}
+	if len(seenV) == 0 {
+		o.add(UNDECIDED, "visitor", "-", "no criteria visitor reaching internal.Normalize")
+		return softenUndecided(o.list)
+	}
+	return o.list
+}
+
+// NORM4: every exported operation that hands a caller's query to the planner
+// normalises its criteria first (the planner and the index ranges only know
+// canonical operand types: an int literal reaching the range code panics in
+// the key encoder).
+func ruleNORM4(c *Ctx) []Ob {
+	o := newObs(c, "NORM4")
+	normalize := c.lookupFunc("internal", "Normalize")
+	// the query normaliser: a root function taking and returning *Query that reaches internal.Normalize
+	isQ := func(t types.Type) bool {
+		pt, ok := t.(*types.Pointer)
+		return ok && c.libNamedIs(pt.Elem(), "query", "Query")
+	}
+	var qnorm []*ssa.Function
+	for _, fn := range c.LibFuncs {
+		if c.pkgRel(fn) != "" || fn.Parent() != nil || len(fn.Params) != 1 || !isQ(fn.Params[0].Type()) || fn.Signature.Results().Len() < 1 || !isQ(fn.Signature.Results().At(0).Type()) {
+			continue
+		}
+		reaches := c.staticReach(fn)[normalize]
+		// or through a criteria visitor allocated here (or in a helper) whose methods reach it
+		var bodies []*ssa.BasicBlock
+		for f := range c.staticReach(fn) {
+			if c.pkgRel(f) == "" {
+				bodies = append(bodies, f.Blocks...)
+			}
+		}
+		for _, b := range bodies {
+			for _, in := range b.Instrs {
+				al, ok := in.(*ssa.Alloc)
+				if !ok {
+					continue
+				}
+				n, ok := al.Type().Underlying().(*types.Pointer).Elem().(*types.Named)
+				if !ok {
+					continue
+				}
+				if vi := c.visitorIface(); vi != nil && types.Implements(types.NewPointer(n), vi) {
+					for _, m := range c.visitorMethods(n) {
+						if c.staticReach(m)[normalize] {
+							reaches = true
+						}
+					}
+				}
+			}
+		}
+		if reaches {
+			qnorm = append(qnorm, fn)
+		}
+	}
+	// the planner: root functions taking a *Query that build a plan input node
+	planners := map[*ssa.Function]bool{}
+	inputs := c.inputNodeTypes()
+	for _, fn := range c.LibFuncs {
+		if c.pkgRel(fn) != "" || fn.Parent() != nil {
+			continue
+		}
+		takesQ := false
+		for _, p := range fn.Params {
+			if isQ(p.Type()) {
+				takesQ = true
+			}
+		}
+		if !takesQ {
+			continue
+		}
+		for _, b := range fn.Blocks {
+			for _, in := range b.Instrs {
+				if al, ok := in.(*ssa.Alloc); ok {
+					if n, ok := al.Type().Underlying().(*types.Pointer).Elem().(*types.Named); ok {
+						for _, it := range inputs {
+							if it == n {
+								planners[fn] = true
+							}
+						}
+					}
+				}
+			}
+		}
+	}
+	var planner *ssa.Function
+	for f := range planners {
+		planner = f
+	}
+	reachesPlanner := func(g *ssa.Function) bool {
+		for f := range c.staticReach(g) {
+			if planners[f] {
+				return true
+			}
+		}
+		return false
+	}
+	if len(qnorm) == 0 || planner == nil {
+		o.add(UNDECIDED, "model", "-", "query normaliser or planner not found")
+		return softenUndecided(o.list)
+	}
+	isNorm := func(g *ssa.Function) bool {
+		for _, f := range qnorm {
+			if f == g {
+				return true
+			}
+		}
+		return false
+	}
+	for _, fn := range c.LibFuncs {
+		if c.pkgRel(fn) != "" || fn.Parent() != nil || fn.Object() == nil || !fn.Object().Exported() {
+			continue
+		}
+		var qp *ssa.Parameter
+		for _, p := range fn.Params {
+			if isQ(p.Type()) {
+				qp = p
+			}
+		}
+		if qp == nil {
+			continue
+		}
+		// calls that hand a query towards the planner (in the function or in its closures)
+		bad := ""
+		n := 0
+		var scope []*ssa.Function
+		var addScope func(f *ssa.Function)
+		addScope = func(f *ssa.Function) {
+			scope = append(scope, f)
+			for _, a := range f.AnonFuncs {
+				addScope(a)
+			}
+		}
+		addScope(fn)
+		for _, sf := range scope {
+			allCalls(sf, func(ci ssa.CallInstruction) {
+				g := staticCallee(ci)
+				if g == nil || !c.IsLib(c.declared(g)) {
+					return
+				}
+				g = c.declared(g)
+				if isNorm(g) || !reachesPlanner(g) {
+					return
+				}
+				if g.Object() != nil && g.Object().Exported() && g.Parent() == nil && c.pkgRel(g) == "" {
+					return // another exported operation: judged there
+				}
+				for _, a := range ci.Common().Args {
+					if !isQ(a.Type()) {
+						continue
+					}
+					n++
+					okAll := true
+					for _, og := range origins(a) {
+						ex, isEx := og.(*ssa.Extract)
+						var call *ssa.Call
+						if isEx {
+							call, _ = ex.Tuple.(*ssa.Call)
+						} else {
+							call, _ = og.(*ssa.Call)
+						}
+						if call == nil {
+							okAll = false
+							continue
+						}
+						h := staticCallee(call)
+						if h == nil {
+							okAll = false
+							continue
+						}
+						h = c.declared(h)
+						if isNorm(h) {
+							continue
+						}
+						// a query derived (Limit, Skip, ...) from a normalised one
+						derived := false
+						if len(call.Common().Args) > 0 {
+							for _, o2 := range origins(call.Common().Args[0]) {
+								if ex2, ok := o2.(*ssa.Extract); ok {
+									if c2, ok := ex2.Tuple.(*ssa.Call); ok {
+										if h2 := staticCallee(c2); h2 != nil && isNorm(c.declared(h2)) {
+											derived = true
+										}
+									}
+								}
+							}
+						}
+						if !derived {
+							okAll = false
+						}
+					}
+					if !okAll {
+						bad = relPath(c, ci.Pos())
+					}
+				}
+			})
+		}
+		if n == 0 {
+			continue
+		}
+		key := c.fname(fn) + "/criteria normalised before planning"
+		if bad != "" {
+			o.add(VIOLATED, key, bad, "the caller's query reaches the planner without having gone through %s: literals keep the Go type they were supplied with (an int, a float32), which the index range code and the comparator do not expect - a panic in the key encoder with an index on the field, different results without", c.fname(qnorm[0]))
+		} else {
+			o.add(OK, key, relPath(c, fn.Pos()), "the query handed towards the planner is the result of %s", c.fname(qnorm[0]))
+		}
+	}
+	return o.list
+}
+
+// ---------------------------------------------------------------- ID5
+
+// ID5: an _id that is accepted has the length the index key decoder assumes.
+// Index keys end with the document id and the scan cuts a CONSTANT number of
+// bytes off the end of the key to recover it (KEY7); uuid.FromString also
+// accepts the 32-digit, braced and urn: spellings (32, 34, 38, 41, 45
+// characters). The validator must therefore accept the canonical form only: a
+// result of true is reached only where the id was found equal to the parsed
+// UUID's String() (36 characters), or its length was compared with the
+// decoder's constant.
+func ruleID5(c *Ctx) []Ob {
+	o := newObs(c, "ID5")
+	// the decoder's constant: key[len(key)-N:] in package index
+	var N int64 = -1
+	for _, fn := range c.LibFuncs {
+		if c.pkgRel(fn) != "index" {
+			continue
+		}
+		for _, b := range fn.Blocks {
+			for _, in := range b.Instrs {
+				sl, ok := in.(*ssa.Slice)
+				if !ok || sl.Low == nil || sl.High != nil {
+					continue
+				}
+				if bo, ok := sl.Low.(*ssa.BinOp); ok && bo.Op == token.SUB {
+					if k, ok := constInt(bo.Y); ok {
+						if lc, ok := bo.X.(*ssa.Call); ok {
+							if bi, ok := lc.Common().Value.(*ssa.Builtin); ok && bi.Name() == "len" {
+								N = k
+							}
+						}
+					}
+				}
+			}
+		}
+	}
+	if N < 0 {
+		o.add(INFO, "decoder", "-", "the index key decoder does not cut a constant-length id off the key")
+		return o.list
+	}
+	n := 0
+	for _, fn := range c.LibFuncs {
+		res := fn.Signature.Results()
+		if res.Len() != 1 || fn.Parent() != nil || len(fn.Params) != 1 || !isStringType(fn.Params[0].Type()) {
+			continue
+		}
+		if bt, ok := res.At(0).Type().Underlying().(*types.Basic); !ok || bt.Kind() != types.Bool {
+			continue
+		}
+		parses := false
+		allCalls(fn, func(ci ssa.CallInstruction) {
+			if strings.HasSuffix(calleeFullName(ci), "uuid/v5.FromString") {
+				parses = true
+			}
+		})
+		if !parses {
+			continue
+		}
+		n++
+		id := fn.Params[0]
+		// edges on which the id is known to be canonical / of length N
+		canon := guardEdges(fn, func(cond ssa.Value, branch bool) bool {
+			bo, ok := cond.(*ssa.BinOp)
+			if !ok || (bo.Op != token.EQL && bo.Op != token.NEQ) {
+				return false
+			}
+			want := bo.Op == token.EQL
+			isID := func(v ssa.Value) bool { return v == ssa.Value(id) || sameOrigin(v, id) }
+			isCanon := func(v ssa.Value) bool {
+				for _, og := range origins(v) {
+					if cl, ok := og.(*ssa.Call); ok && strings.HasSuffix(calleeFullName(cl), "uuid/v5.UUID).String") {
+						return true
+					}
+				}
+				return false
+			}
+			isLenID := func(v ssa.Value) bool {
+				if cl, ok := v.(*ssa.Call); ok {
+					if bi, ok := cl.Common().Value.(*ssa.Builtin); ok && bi.Name() == "len" && isID(cl.Common().Args[0]) {
+						return true
+					}
+				}
+				return false
+			}
+			if (isID(bo.X) && isCanon(bo.Y)) || (isID(bo.Y) && isCanon(bo.X)) {
+				return branch == want
+			}
+			if k, ok := constInt(bo.Y); ok && k == N && isLenID(bo.X) {
+				return branch == want
+			}
+			return false
+		})
+		key := c.fname(fn) + "/accepts canonical ids only"
+		bad := ""
+		for _, ret := range returnsOf(fn) {
+			rv, ok := returnedValue(ret, 0)
+			if !ok {
+				continue
+			}
+			for _, og := range origins(rv) {
+				if b, isC := constBool(og); isC && !b {
+					continue
+				}
+				pb := ret.Block()
+				if phi, isPhi := rv.(*ssa.Phi); isPhi {
+					for i, e := range phi.Edges {
+						if e == og {
+							pb = phi.Block().Preds[i]
+						}
+					}
+				}
+				// the returned value is itself the canonical test, or it is produced under it
+				isTest := false
+				if bo, ok := og.(*ssa.BinOp); ok && bo.Op == token.EQL {
+					for _, e := range []ssa.Value{bo.X, bo.Y} {
+						for _, eo := range origins(e) {
+							if cl, ok := eo.(*ssa.Call); ok && strings.HasSuffix(calleeFullName(cl), "uuid/v5.UUID).String") {
+								isTest = true
+							}
+						}
+					}
+				}
+				if !isTest && !guardedBy(fn, pb, canon) {
+					bad = relPath(c, ret.Pos())
+				}
+			}
+		}
+		if bad != "" {
+			o.add(VIOLATED, key, bad, "an id is accepted without having been found in canonical form: uuid.FromString also accepts spellings of 32, 34, 38, 41 and 45 characters, while the index scan recovers the id as the last %d bytes of the key - such a document is stored, counted, and silently missing from (or mis-attributed by) every query served through an index", N)
+		} else {
+			o.add(OK, key, relPath(c, fn.Pos()), "accepted ids equal their parsed UUID's String() / have the %d characters the index key decoder cuts off", N)
+		}
+	}
+	if n == 0 {
+		o.add(UNDECIDED, "validator", "-", "no boolean function of a string deciding on uuid.FromString found")
+		return softenUndecided(o.list)
+	}
+	return o.list
+}
+
+// ---------------------------------------------------------------- NIL3 / IMP2 / IMP3
+
+// decodedInto: slices (by their alloc) a JSON decoder fills in fn.
+func decodedTargets(fn *ssa.Function) []ssa.Value {
+	var out []ssa.Value
+	allCalls(fn, func(ci ssa.CallInstruction) {
+		full := calleeFullName(ci)
+		args := ci.Common().Args
+		switch full {
+		case "(*encoding/json.Decoder).Decode":
+			if len(args) == 2 {
+				out = append(out, args[1])
+			}
+		case "encoding/json.Unmarshal":
+			if len(args) == 2 {
+				out = append(out, args[1])
+			}
+		}
+	})
+	return out
+}
+
+// NIL3: an element of a slice of pointers filled by a JSON decoder is null for
+// the JSON literal `null`: it is dereferenced only behind a nil test.
+func ruleNIL3(c *Ctx) []Ob {
+	o := newObs(c, "NIL3")
+	n := 0
+	for _, fn := range c.LibFuncs {
+		targets := decodedTargets(fn)
+		if len(targets) == 0 {
+			continue
+		}
+		// allocs behind the targets
+		isTarget := func(al ssa.Value) bool {
+			for _, t := range targets {
+				for _, og := range origins(t) {
+					if mi, ok := og.(*ssa.MakeInterface); ok {
+						og = mi.X
+					}
+					if og == al {
+						return true
+					}
+				}
+				if mi, ok := t.(*ssa.MakeInterface); ok && mi.X == al {
+					return true
+				}
+			}
+			return false
+		}
+		for _, b := range fn.Blocks {
+			for _, in := range b.Instrs {
+				ld, ok := in.(*ssa.UnOp)
+				if !ok || ld.Op != token.MUL {
+					continue
+				}
+				// *elem where elem = *(&slice[i]) and slice = *alloc with alloc a decode target
+				el, ok := ld.X.(*ssa.UnOp)
+				if !ok || el.Op != token.MUL {
+					continue
+				}
+				ia, ok := el.X.(*ssa.IndexAddr)
+				if !ok {
+					continue
+				}
+				fromTarget := false
+				if sl, ok := ia.X.(*ssa.UnOp); ok && sl.Op == token.MUL && isTarget(sl.X) {
+					fromTarget = true
+				}
+				for _, so := range origins(ia.X) {
+					if sl, ok := so.(*ssa.UnOp); ok && sl.Op == token.MUL && isTarget(sl.X) {
+						fromTarget = true
+					}
+				}
+				if !fromTarget {
+					continue
+				}
+				if _, isPtr := el.Type().Underlying().(*types.Pointer); !isPtr {
+					continue
+				}
+				n++
+				key := fmt.Sprintf("%s/decoded element #%d", c.fname(fn), n)
+				if guardedBy(fn, b, nonNilEdges(fn, sameValue(el))) {
+					o.add(OK, key, relPath(c, ld.Pos()), "dereferenced behind a nil test")
+				} else {
+					o.add(VIOLATED, key, relPath(c, ld.Pos()), "an element of a slice of pointers filled by the JSON decoder is dereferenced without a nil test: a `null` element in the file makes the operation panic instead of failing with an error")
+				}
+			}
+		}
+	}
+	if n == 0 {
+		o.add(OK, "decoded elements", "-", "no element of a decoded slice of pointers is dereferenced")
+	}
+	return o.list
+}
+
+// IMP2: a JSON file is ill-formed if anything but white space follows its
+// value. Where the library decodes one value with a json.Decoder, it then asks
+// the decoder for more (More / Token / a second Decode) and looks at the answer.
+func ruleIMP2(c *Ctx) []Ob {
+	o := newObs(c, "IMP2")
+	n := 0
+	for _, fn := range c.LibFuncs {
+		var decodes []ssa.CallInstruction
+		allCalls(fn, func(ci ssa.CallInstruction) {
+			if calleeFullName(ci) == "(*encoding/json.Decoder).Decode" {
+				decodes = append(decodes, ci)
+			}
+		})
+		if len(decodes) == 0 {
+			continue
+		}
+		n++
+		key := c.fname(fn) + "/nothing follows the decoded value"
+		checked := len(decodes) > 1
+		allCalls(fn, func(ci ssa.CallInstruction) {
+			switch calleeFullName(ci) {
+			case "(*encoding/json.Decoder).More", "(*encoding/json.Decoder).Token", "(*encoding/json.Decoder).Buffered":
+				if v, ok := ci.(ssa.Value); ok && len(realReferrers(v)) > 0 {
+					checked = true
+				}
+			}
+		})
+		if checked {
+			o.add(OK, key, relPath(c, decodes[0].Pos()), "the decoder is asked for what follows the value")
+		} else {
+			o.add(VIOLATED, key, relPath(c, decodes[0].Pos()), "json.Decoder.Decode reads one value and stops: whatever follows it in the file is never looked at, so `[{...}] }}} garbage` is imported as if it were well-formed")
+		}
+	}
+	if n == 0 {
+		o.add(INFO, "decoders", "-", "no json.Decoder.Decode in the library")
+	}
+	return o.list
+}
+
+// IMP3: the import restores what export turned into text and validation insists
+// on: document.Validate accepts the expiry field only as a time.Time, while the
+// export writes times as RFC 3339 text. The import path therefore parses the
+// expiry field back (a use of the expiry field's name and of time.Parse in the
+// import function or its store-free helpers) - otherwise a collection holding
+// a document with an expiry cannot be imported from its own export.
+func ruleIMP3(c *Ctx) []Ob {
+	o := newObs(c, "IMP3")
+	imp := c.lookupMethod("", "DB", "ImportCollection")
+	validate := c.lookupFunc("document", "Validate")
+	if imp == nil || validate == nil {
+		o.add(UNDECIDED, "model", "-", "ImportCollection or document.Validate not found")
+		return softenUndecided(o.list)
+	}
+	// does Validate insist on a time for some field?
+	insists := false
+	for f := range c.staticReach(validate) {
+		for _, b := range f.Blocks {
+			for _, in := range b.Instrs {
+				if ta, ok := in.(*ssa.TypeAssert); ok && typeString(ta.AssertedType) == "time.Time" {
+					insists = true
+				}
+			}
+		}
+	}
+	if !insists {
+		o.add(OK, "expiry field", "-", "document.Validate does not insist on a time.Time value")
+		return o.list
+	}
+	parses := false
+	for f := range c.staticReach(imp) {
+		if c.pkgRel(f) != "" && c.pkgRel(f) != "document" {
+			continue
+		}
+		if c.eff(f)&(EffTxSet|EffTxGet|EffTxDelete|EffCursor) != 0 && f != imp {
+			continue
+		}
+		allCalls(f, func(ci ssa.CallInstruction) {
+			if calleeFullName(ci) == "time.Parse" {
+				parses = true
+			}
+		})
+	}
+	key := "DB.ImportCollection/expiry restored as a time"
+	if parses {
+		o.add(OK, key, relPath(c, imp.Pos()), "the import path parses a time back from its exported text")
+	} else {
+		o.add(VIOLATED, key, relPath(c, imp.Pos()), "document.Validate accepts the expiry field only as a time.Time, the export writes it as RFC 3339 text, and the import never parses it back: importing the export of a collection that holds a document with an expiry fails with \"invalid _expiresAt\"")
+	}
+	return o.list
+}
+
+// ---------------------------------------------------------------- PANIC6
+
+// stdPanics: standard-library functions that panic on particular argument
+// values, and the test that must have excluded those values.
+var stdPanics = map[string]struct{ on, guard string }{
+	"math/big.NewFloat":            {"a NaN argument (ErrNaN)", "math.IsNaN"},
+	"(*math/big.Float).SetFloat64": {"a NaN argument (ErrNaN)", "math.IsNaN"},
+	"strings.Repeat":               {"a negative count", ""},
+	"(*math/big.Int).Div":          {"a zero divisor", ""},
+	"(*math/big.Int).Quo":          {"a zero divisor", ""},
+	"(*math/big.Int).Mod":          {"a zero divisor", ""},
+	"(*math/big.Int).DivMod":       {"a zero divisor", ""},
+	"(*math/big.Rat).SetFrac":      {"a zero denominator", ""},
+	"(*regexp.Regexp).Expand":      {"", ""},
+	"regexp.MustCompile":           {"an invalid pattern", ""},
+	"text/template.Must":           {"a non-nil error", ""},
+}
+
+// PANIC6: the library calls no standard-library function that panics on some
+// argument value without having excluded that value: math/big.NewFloat panics
+// on NaN, and a NaN is an ordinary float64 a caller can store in a document.
+func rulePANIC6(c *Ctx) []Ob {
+	o := newObs(c, "PANIC6")
+	n := 0
+	for _, fn := range c.LibFuncs {
+		k := 0
+		allCalls(fn, func(ci ssa.CallInstruction) {
+			full := calleeFullName(ci)
+			sp, ok := stdPanics[full]
+			if !ok {
+				return
+			}
+			n++
+			k++
+			key := fmt.Sprintf("%s/%s #%d", c.fname(fn), shortCallee(ci), k)
+			pos := relPath(c, ci.Pos())
+			if sp.guard == "" {
+				o.add(UNDECIDED, key, pos, "%s panics on %s; no guard is known to this rule", full, sp.on)
+				return
+			}
+			// the argument was tested with the guard, and the call is not on the guard's true side
+			args := ci.Common().Args
+			guarded := false
+			var edges []edge
+			ifEdges(fn, func(cond ssa.Value, e edge) {
+				neg := false
+				for {
+					if u, ok := cond.(*ssa.UnOp); ok && u.Op == token.NOT {
+						cond, neg = u.X, !neg
+						continue
+					}
+					break
+				}
+				gc, ok := cond.(*ssa.Call)
+				if !ok || calleeFullName(gc) != sp.guard {
+					return
+				}
+				for _, a := range args {
+					if len(gc.Common().Args) == 1 && (gc.Common().Args[0] == a || sameOrigin(gc.Common().Args[0], a)) {
+						if e.Branch == neg { // the guard is false on this edge
+							edges = append(edges, e)
+						}
+					}
+				}
+			})
+			if len(edges) > 0 && guardedBy(fn, ci.Block(), edges) {
+				guarded = true
+			}
+			if guarded {
+				o.add(OK, key, pos, "%s excluded by %s", sp.on, sp.guard)
+			} else {
+				o.add(VIOLATED, key, pos, "%s panics on %s, and the argument is not tested with %s first: a value the caller may legitimately store (a float64 NaN) makes every comparison that meets it panic - filters, sorts, range emptiness", full, sp.on, sp.guard)
+			}
+		})
+	}
+	if n == 0 {
+		o.add(OK, "standard library", "-", "no call to a standard-library function of the table (functions that panic on argument values)")
+	}
+	return o.list
+}
+
+// ---------------------------------------------------------------- ADP11
+
+// ADP11: opening the bbolt store behaves like opening the badger store: the
+// directory is created when it does not exist (clover.Open documents that it
+// is; badger creates it), and the file lock is waited for with a bound: with
+// nil options bbolt.Open blocks for as long as another handle holds the file,
+// where badger returns an error.
+func ruleADP11(c *Ctx) []Ob {
+	o := newObs(c, "ADP11")
+	n := 0
+	for _, fn := range c.LibFuncs {
+		if !strings.HasPrefix(c.pkgRel(fn), "store/") {
+			continue
+		}
+		allCalls(fn, func(ci ssa.CallInstruction) {
+			if calleeFullName(ci) != "go.etcd.io/bbolt.Open" {
+				return
+			}
+			n++
+			call, _ := ci.(*ssa.Call)
+			// (a) directory created first
+			keyA := c.fname(fn) + "/directory created before bbolt.Open"
+			mk := false
+			allCalls(fn, func(cj ssa.CallInstruction) {
+				full := calleeFullName(cj)
+				if (full == "os.MkdirAll" || full == "os.Mkdir") && call != nil {
+					if mc, ok := cj.(*ssa.Call); ok && instrDominates(mc, call) {
+						mk = true
+					}
+				}
+			})
+			if mk {
+				o.add(OK, keyA, relPath(c, ci.Pos()), "os.MkdirAll precedes bbolt.Open")
+			} else {
+				o.add(VIOLATED, keyA, relPath(c, ci.Pos()), "bbolt.Open is given a file inside a directory nobody creates: opening a database in a directory that does not exist yet fails on bbolt (\"no such file or directory\") and succeeds on badger, and clover.Open documents that the folder is created")
+			}
+			// (b) bounded wait for the file lock
+			keyB := c.fname(fn) + "/bounded wait for the file lock"
+			args := ci.Common().Args
+			okT := false
+			if len(args) == 3 && !isNilConst(args[2]) {
+				for _, og := range origins(args[2]) {
+					if al, ok := og.(*ssa.Alloc); ok {
+						for _, r := range realReferrers(al) {
+							if fa, ok := r.(*ssa.FieldAddr); ok {
+								if _, f, _ := fieldOfAddr(fa); f == "Timeout" {
+									for _, rr := range realReferrers(fa) {
+										if st, ok := rr.(*ssa.Store); ok {
+											if k, isK := constInt(st.Val); !isK || k > 0 {
+												okT = true
+											}
+										}
+									}
+								}
+							}
+						}
+					}
+				}
+			}
+			if okT {
+				o.add(OK, keyB, relPath(c, ci.Pos()), "Options.Timeout is set")
+			} else {
+				o.add(VIOLATED, keyB, relPath(c, ci.Pos()), "bbolt.Open is called without Options.Timeout: while another handle holds the database file the call never returns (badger reports an error)")
+			}
+		})
+	}
+	if n == 0 {
+		o.add(INFO, "bbolt adapter", "-", "no call to bbolt.Open")
+	}
+	return o.list
+}
+
+// ---------------------------------------------------------------- GUARD2
+
+// GUARD2: an operation that creates a collection from the documents selected
+// by a query establishes that the queried collection exists BEFORE it writes
+// the new collection's catalog record. Otherwise the scan sees the record just
+// written in the same transaction: CreateCollectionByQuery("x", NewQuery("x"))
+// on a database without "x" succeeds and creates an empty "x" instead of
+// failing with ErrCollectionNotExist.
+func ruleGUARD2(c *Ctx) []Ob {
+	o := newObs(c, "GUARD2")
+	r := c.Roles()
+	isQ := func(t types.Type) bool {
+		pt, ok := t.(*types.Pointer)
+		return ok && c.libNamedIs(pt.Elem(), "query", "Query")
+	}
+	collM := c.lookupMethod("query", "Query", "Collection")
+	n := 0
+	for _, fn := range c.LibFuncs {
+		if c.pkgRel(fn) != "" || fn.Parent() != nil {
+			continue
+		}
+		hasQ := false
+		for _, p := range fn.Params {
+			if isQ(p.Type()) {
+				hasQ = true
+			}
+		}
+		if !hasQ {
+			continue
+		}
+		// the first catalog write and a later scan of the query
+		var write *ssa.Call
+		var scan *ssa.Call
+		allCalls(fn, func(ci ssa.CallInstruction) {
+			call, ok := ci.(*ssa.Call)
+			if !ok {
+				return
+			}
+			if c.callsMetaWriter(call) && write == nil {
+				// only writes that CREATE a record: the callee (transitively) fails on an existing collection is not required here
+				write = call
+			}
+			if c.calleeEff(call)&EffCursor != 0 {
+				for _, a := range call.Common().Args {
+					if isQ(a.Type()) {
+						scan = call
+					}
+				}
+			}
+		})
+		if write == nil || scan == nil || !instrDominates(write, scan) {
+			continue
+		}
+		n++
+		key := c.fname(fn) + "/queried collection probed before the catalog write"
+		// a catalog probe on Query.Collection() dominating the write
+		probed := false
+		allCalls(fn, func(ci ssa.CallInstruction) {
+			call, ok := ci.(*ssa.Call)
+			if !ok || !instrDominates(call, write) {
+				return
+			}
+			g := staticCallee(call)
+			if g == nil || !r.isMetaReader(c.declared(g)) {
+				return
+			}
+			onQuery := false
+			for _, a := range call.Common().Args {
+				for _, og := range origins(a) {
+					if cl, ok := og.(*ssa.Call); ok {
+						if h := staticCallee(cl); h != nil && collM != nil && c.declared(h) == collM {
+							onQuery = true
+						}
+					}
+				}
+			}
+			if !onQuery {
+				return
+			}
+			// the outcome of the probe decides whether the write is reached: a boolean result tested true,
+			// or (for a probe returning the record) an error tested nil
+			var edges []edge
+			for _, bv := range resultValues(call, 0) {
+				if bt, ok := bv.Type().Underlying().(*types.Basic); ok && bt.Kind() == types.Bool {
+					ifEdges(fn, func(cond ssa.Value, e edge) {
+						neg := false
+						for {
+							if u, ok := cond.(*ssa.UnOp); ok && u.Op == token.NOT {
+								cond, neg = u.X, !neg
+								continue
+							}
+							break
+						}
+						if cond == bv && e.Branch != neg {
+							edges = append(edges, e)
+						}
+					})
+				}
+			}
+			if ei := errResultIndex(call.Common().Signature()); ei >= 0 && len(edges) == 0 {
+				if _, isBool := call.Common().Signature().Results().At(0).Type().Underlying().(*types.Basic); !isBool {
+					for _, ev := range resultValues(call, ei) {
+						edges = append(edges, nilEdges(fn, sameValue(ev))...)
+					}
+				}
+			}
+			if guardedBy(fn, write.Block(), edges) {
+				probed = true
+			}
+		})
+		if probed {
+			o.add(OK, key, relPath(c, write.Pos()), "the existence of the queried collection is established before the new record is written")
+		} else {
+			o.add(VIOLATED, key, relPath(c, write.Pos()), "the catalog record of the new collection is written before the queried collection has been looked up: when both names are equal and the collection is missing, the scan finds the record just written, and the operation succeeds with an empty collection instead of failing with ErrCollectionNotExist")
+		}
+	}
+	if n == 0 {
+		o.add(INFO, "create-by-query", "-", "no function writes a catalog record and then scans a query")
+	}
+	return o.list
+}
+
+// ---------------------------------------------------------------- IDX10
+
+// IDX10: a field name that goes into the index catalog is valid UTF-8. The
+// catalog is stored as JSON, and encoding/json replaces every invalid byte
+// sequence of a string by U+FFFD: an index created on "k\xff" is recorded as
+// "k�" (HasIndex false, DropIndex fails, a second CreateIndex succeeds,
+// the planner uses a phantom index on the other name), while its entries are
+// written under the raw name. Every store into index.Info.Field of a value that
+// comes from a parameter is therefore guarded by utf8.ValidString of it.
+func ruleIDX10(c *Ctx) []Ob {
+	o := newObs(c, "IDX10")
+	n := 0
+	for _, fn := range c.LibFuncs {
+		if c.pkgRel(fn) != "" {
+			continue
+		}
+		for _, b := range fn.Blocks {
+			for _, in := range b.Instrs {
+				st, ok := in.(*ssa.Store)
+				if !ok {
+					continue
+				}
+				_, f, nm := fieldOfAddr(st.Addr)
+				if f != "Field" || nm == nil || !c.libNamedIs(nm, "index", "Info") {
+					continue
+				}
+				fromParam := false
+				var src ssa.Value
+				for _, og := range origins(st.Val) {
+					if p, ok := og.(*ssa.Parameter); ok {
+						fromParam, src = true, p
+					}
+				}
+				if !fromParam {
+					continue
+				}
+				n++
+				key := c.fname(fn) + "/catalog field name is valid UTF-8"
+				guards := guardEdges(fn, func(cond ssa.Value, branch bool) bool {
+					neg := false
+					for {
+						if u, ok := cond.(*ssa.UnOp); ok && u.Op == token.NOT {
+							cond, neg = u.X, !neg
+							continue
+						}
+						break
+					}
+					cl, ok := cond.(*ssa.Call)
+					if !ok {
+						return false
+					}
+					full := calleeFullName(cl)
+					if full != "unicode/utf8.ValidString" && full != "unicode/utf8.Valid" {
+						return false
+					}
+					a := cl.Common().Args[0]
+					return (a == src || sameOrigin(a, src)) && branch != neg
+				})
+				if guardedBy(fn, b, guards) {
+					o.add(OK, key, relPath(c, st.Pos()), "recorded only after utf8.ValidString accepted it")
+				} else {
+					o.add(VIOLATED, key, relPath(c, st.Pos()), "the caller's field name is recorded in the JSON catalog without a UTF-8 check: encoding/json rewrites invalid bytes to U+FFFD, so the catalog names another field than the one the index entries were written under (HasIndex false after CreateIndex, DropIndex fails, the entries can never be removed, a phantom index serves queries on the other name)")
+				}
+			}
+		}
+	}
+	if n == 0 {
+		o.add(INFO, "catalog", "-", "no store of a parameter into index.Info.Field")
+	}
+	return o.list
 }
